@@ -477,7 +477,13 @@ impl<
                 // future time zone transitions.
                 return posix_tz.next_transition(ts);
             }
-            self.timestamps().len() - 1
+            // Without a POSIX TZ string, nothing is known about what happens
+            // after the last recorded transition, and the given timestamp is
+            // at or after it. So there is no next transition. (Returning the
+            // last transition here would not be strictly after the given
+            // timestamp, and would make `TimeZone::following` yield it
+            // forever.)
+            return None;
         } else {
             index
         };
